@@ -1,4 +1,4 @@
-use super::{DummyModule, ModuleId, ModuleRef, ModuleRefWeak, ModuleReferencingError};
+use super::{ModuleId, ModuleRef, ModuleRefWeak, ModuleReferencingError};
 use crate::{
     prelude::{GateRef, ObjectPath},
     sync::SwapLock,
@@ -419,7 +419,7 @@ impl ModuleContext {
                 )));
             }
 
-            if strong.try_as_ref::<DummyModule>().is_some() {
+            if strong.is_placeholder() {
                 Err(ModuleReferencingError::NotYetInitalized(
                     format!("The parent ptr of module '{}' is existent but not yet initalized, according to the load order.", self.path)
                 ))
